@@ -1,5 +1,5 @@
 //! C08 — every `<--` signal assignment is reported exactly once. Templates whose body is every
-//! sequence of up to 2 (3) items from a 14-form alphabet in three contexts, plus the same bodies
+//! sequence of up to 2 (3) items from a 17-form alphabet in three contexts, plus the same bodies
 //! as function-like and custom templates; findings obtained through the real parser, desugarer,
 //! lifter and pass (route B), compared with the statements the generator emitted and with an
 //! independent token scan.
@@ -11,7 +11,7 @@ use serde_json::{json, Value};
 use std::ops::Range;
 use std::path::Path;
 
-pub const FORMS: usize = 14;
+pub const FORMS: usize = 17;
 pub const CONTEXTS: usize = 3;
 
 #[derive(Clone, Debug)]
@@ -21,6 +21,8 @@ pub struct Item {
     pub arrows: Vec<(Range<usize>, usize, usize, String)>,
     /// Spans of constraint statements (`<==`, `===`) with the signal accesses they mention.
     pub constraints: Vec<(Range<usize>, Vec<String>)>,
+    /// `<--` tokens of the item beyond one per entry of `arrows` (statements that hold several).
+    pub more_tokens: usize,
 }
 
 pub struct Built {
@@ -30,7 +32,7 @@ pub struct Built {
 
 /// Appends one item to the template body.
 fn emit(text: &mut String, form: usize, ctx: usize, k: usize, items: &mut Vec<Item>) {
-    let mut item = Item { arrows: Vec::new(), constraints: Vec::new() };
+    let mut item = Item { arrows: Vec::new(), constraints: Vec::new(), more_tokens: 0 };
     let open = match ctx {
         0 => String::new(),
         1 => "    if (n > 1) {\n".to_string(),
@@ -114,6 +116,29 @@ fn emit(text: &mut String, form: usize, ctx: usize, k: usize, items: &mut Vec<It
             let r = stmt(text, &format!("a[0] === {e}"), true);
             item.constraints.push((r, vec!["a[0]".into(), "in".into()]));
         }
+        14 => {
+            // one declaration, two `<--` initialisers: two assignments at one statement
+            let r = stmt(text, &format!("signal p{k} <-- {e}, q{k} <-- in"), false);
+            item.arrows.push((r, 2, 2, format!("p{k},q{k}")));
+            item.more_tokens = 1;
+        }
+        15 => {
+            let r = stmt(text, &format!("signal (p{k}, q{k}) <-- ({e}, in)"), false);
+            item.arrows.push((r, 1, 2, format!("p{k},q{k}")));
+        }
+        16 => {
+            // anonymous component with two inputs assigned with `<--`
+            text.push_str(indent);
+            let start = text.len();
+            text.push_str("t2 <== ");
+            let call_start = text.len();
+            text.push_str(&format!("Mul2()(a <-- {e}, b <-- in)"));
+            let end = text.len();
+            text.push_str(";\n");
+            item.arrows.push((call_start..end, 2, 2, "<anonymous>.a,<anonymous>.b".into()));
+            item.more_tokens = 1;
+            item.constraints.push((start..end, vec!["t2".into()]));
+        }
         _ => {
             let r = stmt(text, "s <-- in * in", false);
             item.arrows.push((r, 1, 1, "s".into()));
@@ -125,7 +150,7 @@ fn emit(text: &mut String, form: usize, ctx: usize, k: usize, items: &mut Vec<It
     items.push(item);
 }
 
-pub const SUPPORT: &str = "pragma circom 2.1.0;\ntemplate Sub() {\n    signal input in;\n    signal output out;\n    out <== in;\n}\ntemplate Sub2() {\n    signal input in;\n    signal output o1;\n    signal output o2;\n    o1 <== in;\n    o2 <== in;\n}\n";
+pub const SUPPORT: &str = "pragma circom 2.1.0;\ntemplate Sub() {\n    signal input in;\n    signal output out;\n    out <== in;\n}\ntemplate Sub2() {\n    signal input in;\n    signal output o1;\n    signal output o2;\n    o1 <== in;\n    o2 <== in;\n}\ntemplate Mul2() {\n    signal input a;\n    signal input b;\n    signal output out;\n    out <== a * b;\n}\n";
 
 /// kind % 3: 0 template, 1 custom template, 2 parallel template; kind >= 3: the file also holds a
 /// main component (the program path through the definition merger instead of the library path).
@@ -156,7 +181,7 @@ fn arrow_tokens(text: &str) -> usize {
 pub fn check(seq: &[(usize, usize)], kind: usize, dir: &Path, case: &Value) -> (Vec<Violation>, usize) {
     let mut out = Vec::new();
     let built = build(seq, kind);
-    let generated: usize = built.items.iter().map(|i| i.arrows.len()).sum();
+    let generated: usize = built.items.iter().map(|i| i.arrows.len() + i.more_tokens).sum();
     // Independent count by token scan of the body of M.
     let body_start = built
         .text
@@ -332,9 +357,9 @@ fn seq_of(mut code: u64, len: usize) -> Vec<(usize, usize)> {
 pub fn run(run: &Run) {
     let max_len = run.tier.pick(3usize, 4usize);
     run.set_rule(&format!(
-        "templates whose body is every sequence of 1..={max_len} items from 14 forms {{s <-- e, e --> s, a[0] <-- e, \
+        "templates whose body is every sequence of 1..={max_len} items from 17 forms {{s <-- e, e --> s, a[0] <-- e, \
          a[i] <-- e, c.in <-- e, cs[i].in <-- e, signal t <-- e, (s,t2) <-- (e,in), (s,_) <-- Sub2()(e), \
-         t2 <== Sub()(in <-- e), s <== e, s === e, a[0] === e, s <-- in*in}} x contexts {{top, inside if, \
+         t2 <== Sub()(in <-- e), s <== e, s === e, a[0] === e, signal p <-- e, q <-- in, signal (p,q) <-- (e,in), t2 <== Mul2()(a <-- e, b <-- in), s <-- in*in}} x contexts {{top, inside if, \
          inside for}}, e alternating linear / cubic; plus every sequence of <= 2 items as parallel template and in a file with a main component, every \
          single item as custom template (with and without main), and a function; non-trivial = body with at least one `<--`"
     ));
